@@ -6,7 +6,7 @@ import tempfile
 from engine import gen_states, pool_map
 from readers import run_cli, write_text
 
-SEQS = {1: "ACG", 2: "TTGCA", 3: "GN", 4: "C"}
+SEQS = {1: "ACG", 2: "C", 3: "GNt", 4: "TTGCA"}      # a one-base node (SNP allele), an ambiguous and a soft-masked base
 
 
 def name(n):
